@@ -8,7 +8,7 @@ namespace SlipVerif.Dispatch
 
 /-! ## association lists -/
 
-theorem lookup_erase {α : Type} (m : List (Key × α)) (k k' : Key) :
+theorem lookup_erase {κ α : Type} [DecidableEq κ] (m : List (κ × α)) (k k' : κ) :
     lookup (erase m k) k' = if k' = k then none else lookup m k' := by
   induction m with
   | nil => simp [erase, lookup]
@@ -25,7 +25,7 @@ theorem lookup_erase {α : Type} (m : List (Key × α)) (k k' : Key) :
         simp [erase, lookup, h0]
       · simp [erase, lookup, h0, h1, ih]
 
-theorem lookup_insert {α : Type} (m : List (Key × α)) (k k' : Key) (v : α) :
+theorem lookup_insert {κ α : Type} [DecidableEq κ] (m : List (κ × α)) (k k' : κ) (v : α) :
     lookup (insert m k v) k' = if k' = k then some v else lookup m k' := by
   by_cases h : k' = k
   · subst h; simp [insert, lookup]
@@ -259,11 +259,13 @@ theorem mem_keys (precs : List (List Cls)) (k : Key) : k ∈ keys precs ↔ Appl
       · rintro ⟨hc, hk⟩
         exact ⟨c, hc, k, (ih _).2 hk, rfl⟩
 
-theorem applicable_replicate (cs : List Cls) (cpl : Cls → List Cls) (tC : Cls)
-    (hT : ∀ c, tC ∈ cpl c) : Applicable (List.replicate cs.length tC) (cs.map cpl) := by
-  induction cs with
+theorem applicable_replicate (precs : Precs) (tC : Cls)
+    (hT : ∀ p ∈ precs, tC ∈ p) : Applicable (List.replicate precs.length tC) precs := by
+  induction precs with
   | nil => simp [Applicable]
-  | cons c cs ih => simp [List.replicate, Applicable, hT c, ih]
+  | cons p ps ih =>
+    simp only [List.length_cons, List.replicate, Applicable]
+    exact ⟨hT p (by simp), ih (fun q hq => hT q (by simp [hq]))⟩
 
 /-! ## vocabulary of the property statements and small facts about it -/
 
@@ -354,5 +356,34 @@ theorem tableOf_append (ops1 ops2 : List Op) (t : Table) :
 
 theorem absT_init : absT Aux.init.methods = Table.empty := by
   funext k q; rfl
+
+/-! ## compute-applicable-methods: the accumulating walk is a fold over the collected list -/
+
+theorem compMeths_eq (ms : Methods) (hs : List (List Cls)) (pre : Key) (mc : MethComp) :
+    compMeths ms hs pre mc = (collect ms hs pre).foldl compStep mc := by
+  induction hs generalizing pre mc with
+  | nil =>
+    simp only [compMeths, collect]
+    cases lookup ms pre <;> rfl
+  | cons h hs ih =>
+    simp only [compMeths, collect, ih]
+    induction h generalizing mc with
+    | nil => rfl
+    | cons c cs ihc => simp only [List.foldl_cons, List.flatMap_cons, List.foldl_append, ihc]
+
+theorem foldl_compStep (eff : List Combo) (mc : MethComp) :
+    eff.foldl compStep mc =
+      { primary := match mc.primary with | some b => some b | none => (eff.filterMap (fun c => c.primary)).head?
+        around := mc.around ++ eff.filterMap (fun c => c.wrap)
+        before := mc.before ++ eff.filterMap (fun c => c.before)
+        after := mc.after ++ eff.filterMap (fun c => c.after) } := by
+  induction eff generalizing mc with
+  | nil => cases mc with | mk p a b f => cases p <;> simp
+  | cons c cs ih =>
+    rw [List.foldl_cons, ih]
+    cases mc with
+    | mk p a b f =>
+      cases p <;> cases hp : c.primary <;> cases hw : c.wrap <;> cases hb : c.before <;> cases ha : c.after <;>
+        simp [compStep, hp, hw, hb, ha]
 
 end SlipVerif.Dispatch
